@@ -279,7 +279,7 @@ def abstract_encoders():
         Case('decimal-refused', when=lambda c: is_dec(c.value) and neg(wire.decimal_ok(c.value)), raises=RAISES_DEC),
         Case('not-a-decimal', when=lambda c: not is_dec(c.value), raises=TypeError),
     ], name=ENC + '.decimal', setup=lambda c: wire.dec_facts(c.st, c.value.t) if isinstance(c.value, SOpaque) and c.value.kind == 'decimal' else None,
-        doc='abstract view (scale octet + signed 32-bit unscaled value; the function itself goes through str(value): bounded stand-in)'))
+        doc='scale octet from the exponent + signed 32-bit unscaled value, under the Decimal library model of A5'))
     return out
 
 
